@@ -185,28 +185,47 @@ def run_tlc(module, cfg, *, workers=None, timeout=600, simulate=None, depth=None
 # ----------------------------------------------------------------------------------
 # Go harness
 
-def build_harness(race=False, tags="verif"):
-    os.makedirs(BUILD, exist_ok=True)
-    out = os.path.join(BUILD, "harness-race" if race else "harness")
-    # go.sum must cover /repo's dependencies (offline, no sumdb)
+def build_harness(family="core", race=False, tags="verif"):
+    """Build harness/cmd/<family> against REPO's working tree (replace directive). When VERIF_REPO
+    points somewhere other than /repo (scratch worktree with a seeded change) the harness module is
+    copied to a scratch dir with the replace path rewritten, so concurrent runs do not interfere."""
+    tagd = hashlib.sha1(REPO.encode()).hexdigest()[:8] if REPO != "/repo" else ""
+    bdir = os.path.join(BUILD, tagd) if tagd else BUILD
+    os.makedirs(bdir, exist_ok=True)
+    out = os.path.join(bdir, family + ("-race" if race else ""))
+    src = HARNESS_SRC
+    tmp = None
+    if REPO != "/repo":
+        tmp = scratch("hsrc-")
+        src = os.path.join(tmp, "harness")
+        shutil.copytree(HARNESS_SRC, src)
+        gm = open(os.path.join(src, "go.mod")).read().replace("=> /repo", "=> " + REPO)
+        open(os.path.join(src, "go.mod"), "w").write(gm)
     try:
-        shutil.copy(os.path.join(REPO, "go.sum"), os.path.join(HARNESS_SRC, "go.sum"))
-    except OSError:
-        pass
-    cmd = ["go", "build", "-tags", tags, "-o", out]
-    if race:
-        cmd.append("-race")
-    cmd.append(".")
-    p = subprocess.run(cmd, cwd=HARNESS_SRC, env=goenv(), capture_output=True, text=True)
-    if p.returncode != 0:
-        raise Inconclusive("harness build failed:\n" + p.stdout + p.stderr)
-    return out
+        try:
+            shutil.copy(os.path.join(REPO, "go.sum"), os.path.join(src, "go.sum"))
+        except OSError:
+            pass
+        cmd = ["go", "build", "-tags", tags, "-o", out]
+        if race:
+            cmd.append("-race")
+        cmd.append("./cmd/" + family)
+        p = subprocess.run(cmd, cwd=src, env=goenv(), capture_output=True, text=True)
+        if p.returncode != 0:
+            raise Inconclusive("harness build failed:\n" + p.stdout + p.stderr)
+        return out
+    finally:
+        if tmp:
+            shutil.rmtree(tmp, ignore_errors=True)
 
 
 def build_repo_binary(pkg, name, tags=""):
     """Build a command from /repo's working tree (e.g. ./cmd/shfmt)."""
     os.makedirs(BUILD, exist_ok=True)
-    out = os.path.join(BUILD, name)
+    tagd = hashlib.sha1(REPO.encode()).hexdigest()[:8] if REPO != "/repo" else ""
+    bdir = os.path.join(BUILD, tagd) if tagd else BUILD
+    os.makedirs(bdir, exist_ok=True)
+    out = os.path.join(bdir, name)
     cmd = ["go", "build", "-o", out]
     if tags:
         cmd += ["-tags", tags]
